@@ -566,7 +566,7 @@ func (w *mw) bind(b int) {
 		kind, prefix = w.p.bindKinds[b], w.p.bindPrefix[b]
 	}
 	if kind == 2 {
-		if _, err := w.m.HandlersBind(&hStruct{w: w, b: b}); err != nil {
+		if _, err := w.m.HandlersBind(&hStruct{w: w, b: b}, am.BindOpts{Id: fmt.Sprint("b", b)}); err != nil {
 			panic(err)
 		}
 		return
@@ -604,11 +604,12 @@ func (w *mw) bind(b int) {
 	}
 	mkn(am.StateAny + am.SuffixEnter)
 	mkf(am.StateAny + am.SuffixState)
-	var opts []am.BindOpts
+	// (known ids, so that a plan can detach a binding)
+	opt := am.BindOpts{Id: fmt.Sprint("b", b)}
 	if kind == 1 {
-		opts = append(opts, am.BindOpts{StatePrefix: prefix})
+		opt.StatePrefix = prefix
 	}
-	if _, err := w.m.HandlersBindMaps(neg, fin, opts...); err != nil {
+	if _, err := w.m.HandlersBindMaps(neg, fin, opt); err != nil {
 		panic(err)
 	}
 }
